@@ -1,7 +1,7 @@
 (* C11 — wire format, model runner and the trace oracle. Definitions only.
    case  : auto_accept should_dial dialable_mask nops (kind peer arg)*
    trace : 1 then per step: 1 nev (kind peer arg)* ncalls (kind peer arg)* (9 numbers per peer)*
-           npend (sid peer)* tasks_alive ; a stuck step is the single number 2 and ends the trace. *)
+           npend (sid peer)* tasks_alive timers_armed_so_far ; a stuck step is the single number 2 and ends the trace. *)
 From Coq Require Import List NArith Bool.
 From V.common Require Import Wire.
 From V.C11 Require Import Model.
@@ -20,13 +20,33 @@ Definition p_op : parser op :=
   | 4 => pret (OpenFail p) | 5 => pret (DialFail p) | 6 => pret (HsIn p b) | 7 => pret (HsOut p b)
   | 8 => pret (Validate p b) | 9 => pret (Timer p) | 10 => pret (CmdOpen p) | 11 => pret (CmdClose p)
   | 12 => pret (CmdForce p) | 13 => pret (TaskDie p b) | 14 => pret (Release p) | 15 => pret (KillChan p)
-  | 16 => pret (Gate p)
+  | 16 => pret (Gate p) | 17 => pret (Notify p) | 18 => pret (NotifyDie p b)
+  | 20 => pret (GrabSink p) | 21 => pret (SendSync p a) | 22 => pret (SendAsync p a)
+  | 23 => pret (SinkSync p a) | 24 => pret (SinkAsync p a)
   | _ => pfail
   end.
 
-Definition decode_case (l : list N) : option (cfg * list op) :=
-  pall (let* aa := pBool in let* sd := pBool in let* mask := pN in let* ops := plist p_op in
-        pret (mkCfg aa sd (fun p => N.testbit mask p), ops)) l.
+(* an operation of a case: a model event, or (kind 19) "all armed timers expire": the harness really
+   sleeps > 5 s and the real futures_timer timers fire, oldest first; the model handles one `Timer p`
+   per armed timer. A case with a SleepAll contains no hook-fired Timer events (they are dropped here
+   and skipped by the harness) because the real timer of a hook-fired entry would fire again. *)
+Inductive gop := GOp (o : op) | GSleepAll.
+
+Definition p_gop : parser gop :=
+  fun l => match l with
+           | 19 :: _ :: _ :: rest => Some (GSleepAll, rest)
+           | _ => match p_op l with Some (o, rest) => Some (GOp o, rest) | None => None end
+           end.
+
+Definition is_sleep (g : gop) : bool := match g with GSleepAll => true | _ => false end.
+Definition is_timer (g : gop) : bool := match g with GOp (Timer _) => true | _ => false end.
+
+Definition decode_case (l : list N) : option (cfg * list gop) :=
+  match pall (let* aa := pBool in let* sd := pBool in let* mask := pN in let* ops := plist p_gop in
+              pret (mkCfg aa sd (fun p => (p <? 3) && N.testbit mask p), ops)) l with
+  | Some (c, ops) => Some (c, if existsb is_sleep ops then filter (fun g => negb (is_timer g)) ops else ops)
+  | None => None
+  end.
 
 (* ---- encoders ---- *)
 Definition enc_dir (d : dir) : N := match d with DIn => 0 | DOut => 1 end.
@@ -36,9 +56,13 @@ Definition enc_ev (e : uev) : list N :=
   | UOpened p d => [1; p; enc_dir d]
   | UClosed p => [2; p; 0]
   | UFail p e => [3; p; e]
+  | UNotif p => [4; p; 0]
   end.
 Definition enc_call (c : call) : list N :=
-  match c with CDial p => [0; p; 0] | COpen p x => [1; p; x] | CForce p => [2; p; 0] end.
+  match c with
+  | CDial p => [0; p; 0] | COpen p x => [1; p; x] | CForce p => [2; p; 0]
+  | CRet p code => [3; p; code] | CWire p k m => [4; p; k * 1000000 + m]
+  end.
 Definition enc_inb (i : inb) : N :=
   match i with IClosed => 0 | IReading => 1 | IValidating => 2 | ISending => 3 | IOpen => 4 end.
 Definition enc_ps (x : option pstate) : list N :=
@@ -63,7 +87,7 @@ Definition enc_peer (s : st) (p : peer) : list N :=
 Definition dump (s : st) : list N :=
   flat_map (enc_peer s) peers_l ++
   enc_list (fun e : sid * peer => [fst e; snd e]) (sort_by fst (pend s)) ++
-  [N.of_nat (length (tasks s))].
+  [N.of_nat (length (tasks s)); narm s].
 
 Fixpoint enc_run (r : list (st * list uev * list call)) : list N :=
   match r with
@@ -72,28 +96,97 @@ Fixpoint enc_run (r : list (st * list uev * list call)) : list N :=
       1 :: enc_list enc_ev ev ++ enc_list enc_call calls ++ dump s ++ enc_run t
   end.
 
-Definition run_case (l : list N) : list N :=
+(* all armed timers fire, oldest first: one Timer step per entry of the snapshot *)
+Fixpoint fire_all (c : cfg) (s : st) (l : list peer) : res :=
+  match l with
+  | [] => ok s
+  | p :: t =>
+      match step c s (Timer p) with
+      | Some (s1, e1, c1) =>
+          match fire_all c s1 t with
+          | Some (s2, e2, c2) => Some (s2, e1 ++ e2, c1 ++ c2)
+          | None => None
+          end
+      | None => None
+      end
+  end.
+
+Definition gstep (c : cfg) (s : st) (g : gop) : res :=
+  match g with GOp o => step c s o | GSleepAll => fire_all c s (timers s) end.
+
+Fixpoint grun (c : cfg) (s : st) (l : list gop) : list (st * list uev * list call) * bool :=
+  match l with
+  | [] => ([], true)
+  | g :: t =>
+      match gstep c s g with
+      | None => ([], false)
+      | Some (s1, ev, calls) => let '(r, b) := grun c s1 t in ((s1, ev, calls) :: r, b)
+      end
+  end.
+
+Definition run_ecase (l : list N) : list N :=
   match decode_case l with
   | Some (c, ops) =>
-      let '(r, fin) := run c init ops in
+      let '(r, fin) := grun c init ops in
       1 :: enc_run r ++ (if fin then [] else [2])
   | None => [0]
   end.
 
+(* ---- lazy-user mode: the dialable mask of a case carries the capacity of the user event channel in
+   its bits 3 and up (0: the eager mode above); kind 25 is one `handle.next()` of the user ---- *)
+Definition case_cap (l : list N) : N := match l with _ :: _ :: mask :: _ => mask / 8 | _ => 0 end.
+
+Definition p_lop : parser lop :=
+  fun l => match l with
+           | 25 :: _ :: _ :: rest => Some (LPoll, rest)
+           | _ => match p_op l with Some (o, rest) => Some (LOp o, rest) | None => None end
+           end.
+
+Definition decode_lcase (l : list N) : option (cfg * list lop) :=
+  pall (let* aa := pBool in let* sd := pBool in let* mask := pN in let* ops := plist p_lop in
+        pret (mkCfg aa sd (fun p => (p <? 3) && N.testbit mask p), ops)) l.
+
+Definition ldump (cap : nat) (l : lst) : list N :=
+  flat_map (fun p => [b2n (hopen (ls l) p); b2n (hval (ls l) p)]) peers_l ++
+  [N.of_nat (Nat.min cap (length (lq l))); b2n (parked cap l)].
+
+Fixpoint enc_lrun (cap : nat) (r : list (lst * list uev * list call)) : list N :=
+  match r with
+  | [] => []
+  | (l, ev, calls) :: t =>
+      1 :: enc_list enc_ev ev ++ enc_list enc_call calls ++ ldump cap l ++ enc_lrun cap t
+  end.
+
+Definition run_lcase (l : list N) : list N :=
+  match decode_lcase l with
+  | Some (c, ops) =>
+      let cap := N.to_nat (case_cap l) in
+      let '(r, fin) := lrun c cap linit ops in
+      1 :: enc_lrun cap r ++ (if fin then [] else [2])
+  | None => [0]
+  end.
+
+Definition run_case (l : list N) : list N :=
+  if case_cap l =? 0 then run_ecase l else run_lcase l.
+
 (* ---- decoding a trace ---- *)
 Record pobs := mkPobs { o_ps : option pstate; o_hsI : bool; o_hsO : bool; o_hopen : bool; o_hval : bool }.
-Record sobs := mkSobs { o_ev : list uev; o_calls : list call; o_peers : list pobs; o_pend : list (sid * peer); o_tasks : N }.
+Record sobs := mkSobs { o_ev : list uev; o_calls : list call; o_peers : list pobs; o_pend : list (sid * peer); o_tasks : N; o_narm : N }.
 
 Definition p_dir : parser dir := let* x := pN in pret (if x =? 0 then DIn else DOut).
 Definition p_ev : parser uev :=
   let* k := pN in let* p := pN in let* a := pN in
   match k with
   | 0 => pret (UValidate p) | 1 => pret (UOpened p (if a =? 0 then DIn else DOut))
-  | 2 => pret (UClosed p) | 3 => pret (UFail p a) | _ => pfail
+  | 2 => pret (UClosed p) | 3 => pret (UFail p a) | 4 => pret (UNotif p) | _ => pfail
   end.
 Definition p_call : parser call :=
   let* k := pN in let* p := pN in let* a := pN in
-  match k with 0 => pret (CDial p) | 1 => pret (COpen p a) | 2 => pret (CForce p) | _ => pfail end.
+  match k with
+  | 0 => pret (CDial p) | 1 => pret (COpen p a) | 2 => pret (CForce p)
+  | 3 => pret (CRet p a) | 4 => pret (CWire p (a / 1000000) (a mod 1000000))
+  | _ => pfail
+  end.
 Definition dec_inb (x : N) : option inb :=
   match x with 0 => Some IClosed | 1 => Some IReading | 2 => Some IValidating | 3 => Some ISending
           | 4 => Some IOpen | _ => None end.
@@ -130,7 +223,8 @@ Definition p_sobs : parser sobs :=
   let* pp := prep 3 p_pobs in
   let* pe := plist (let* x := pN in let* q := pN in pret (x, q)) in
   let* t := pN in
-  pret (mkSobs ev calls pp pe t).
+  let* na := pN in
+  pret (mkSobs ev calls pp pe t na).
 
 (* steps of a trace; the flag tells whether the trace ended with a stuck step *)
 Fixpoint p_steps (fuel : nat) : parser (list sobs * bool) :=
@@ -166,9 +260,9 @@ Definition pobs_eqb (a b : pobs) : bool :=
   Bool.eqb (o_hopen a) (o_hopen b) && Bool.eqb (o_hval a) (o_hval b).
 
 Definition ev_peer (e : uev) : peer :=
-  match e with UValidate p | UOpened p _ | UClosed p | UFail p _ => p end.
+  match e with UValidate p | UOpened p _ | UClosed p | UFail p _ | UNotif p => p end.
 Definition call_peer (c : call) : peer :=
-  match c with CDial p | COpen p _ | CForce p => p end.
+  match c with CDial p | COpen p _ | CForce p | CRet p _ | CWire p _ _ => p end.
 
 (* inbound substream accepted: handshake being sent or sent *)
 Definition in_accepted (x : option pstate) : bool :=
@@ -204,17 +298,21 @@ Record omem := mkOmem {
   m_opened : peer -> bool;              (* user view: last of Opened/Closed was Opened *)
   m_gated : peer -> bool;               (* a Connection task of the peer may be slow to close *)
   m_req : list (sid * peer);            (* open_substream requests not answered by the case *)
-  m_failed : list sid                   (* requests answered with a failure *)
+  m_failed : list sid;                  (* requests answered with a failure *)
+  m_cnt : N;                            (* NotificationStreamOpened events so far = stream periods *)
+  m_sink : peer -> option N;            (* the period whose sink the handle holds for the peer *)
+  m_usink : peer -> option N            (* the period of the sink clone the user keeps *)
 }.
 
 Definition omem0 : omem :=
-  mkOmem [absent; absent; absent] (fun _ => false) (fun _ => false) [] [].
+  mkOmem [absent; absent; absent] (fun _ => false) (fun _ => false) [] [] 0 (fun _ => None) (fun _ => None).
 
 (* failures: bit 0 = outside every known class, bit 1 = class 1 (slow close), bit 2 = class 2
-   (failed substream id kept pending) *)
+   (failed substream id kept pending), bit 3 = class 3 (user Reject drops the open request) *)
 Definition F_GEN : N := 1.
 Definition F_SLOW : N := 2.
 Definition F_KEPT : N := 4.
+Definition F_REJ : N := 8.
 
 (* grammar of the user-visible events of one step, in order *)
 Fixpoint grammar (opened : peer -> bool) (gated : peer -> bool) (l : list uev) : (peer -> bool) * N :=
@@ -232,8 +330,22 @@ Fixpoint grammar (opened : peer -> bool) (gated : peer -> bool) (l : list uev) :
       | UFail p _ =>
           let '(o', f) := grammar opened gated t in
           (o', N.lor (if opened p then bad p else 0) f)
+      | UNotif p =>
+          (* notifications are delivered only between Opened and Closed *)
+          let '(o', f) := grammar opened gated t in
+          (o', N.lor (if opened p then 0 else bad p) f)
       | UValidate _ => grammar opened gated t
       end
+  end.
+
+(* the handle's sink table as the user-visible events dictate it: period numbers are handed out in the
+   order of the Opened events *)
+Fixpoint sinks (cnt : N) (sk : peer -> option N) (l : list uev) : N * (peer -> option N) :=
+  match l with
+  | [] => (cnt, sk)
+  | UOpened p _ :: t => sinks (cnt + 1) (upd sk p (Some cnt)) t
+  | UClosed p :: t => sinks cnt (upd sk p None) t
+  | _ :: t => sinks cnt sk t
   end.
 
 Definition flag (b : bool) (f : N) : N := if b then 0 else f.
@@ -246,7 +358,7 @@ Definition check_step (c : cfg) (m : omem) (o : op) (x : sobs) : omem * N :=
   let gated :=
     match o with
     | Gate q => upd (m_gated m) q true
-    | TaskDie q true => upd (m_gated m) q true
+    | TaskDie q true | NotifyDie q true => upd (m_gated m) q true
     | Release q => upd (m_gated m) q false
     | _ => m_gated m
     end in
@@ -280,32 +392,44 @@ Definition check_step (c : cfg) (m : omem) (o : op) (x : sobs) : omem * N :=
      | HsIn _ true, Some (Validating _ ob IReading) => auto_accept c && negb (o_closed ob)
      | _, _ => false
      end) in
-  (* 4. a stream that was open is reported closed when the connection goes / the user closes it *)
+  (* 4. "when the connection to a peer is lost an open stream is reported closed" (also when the user
+     closes it). The report may be late only while the case keeps the Connection task's substream
+     close blocked (Gate / gated TaskDie: the environment of finding class 1); then it is due when the
+     case releases the close: after `Release p` the user may still see p as opened only if a stream
+     is really open. *)
   let cl :=
     match o with
     | ConnClosed _ => negb (is_open (o_ps pre)) || has_closed p (o_ev x) || gated_or p
     | CmdClose _ => negb (is_open (o_ps pre) && o_hopen pre) || has_closed p (o_ev x) || gated_or p
+    | Release _ => negb (opened' p) || is_open (o_ps post)
     | _ => true
     end in
-  (* 5. an open request is taken up or answered at once *)
+  (* 5. "a request to open a stream to a connected peer with no negotiation in progress is answered":
+     the request is taken up (outbound substream wanted) or answered at once. Not a request in the
+     sense of the text: the handle refuses the call because it still lists the peer as open
+     (open_substream returns PeerAlreadyExists: o_hopen); a negotiation, a dial or a stream is already
+     in progress (every other peer state: the command is ignored and the outcome of what is in
+     progress is the answer). A peer that is not connected is dialed first (CDial) or refused. *)
   let ans :=
     match o with
     | CmdOpen _ =>
         if o_hopen pre then true else
         match o_ps pre with
         | None => has_fail p (o_ev x) || existsb (fun cl => match cl with CDial _ => true | _ => false end) (o_calls x)
-        | Some (Closed None) => has_fail p (o_ev x) || in_progress (o_ps post)
+        | Some (Closed _) => has_fail p (o_ev x) || in_progress (o_ps post)
         | Some (VPending _) => has_fail p (o_ev x)
         | _ => true
         end
     | _ => true
     end in
-  (* 6. whoever gives up on an outbound substream the user knows about says so *)
+  (* 6. "... answered by exactly one of opened or open-failure": whoever gives up an outbound
+     substream the user asked for (or agreed to) says so: in progress -> still in progress, or Open with
+     NotificationStreamOpened, or NotificationStreamOpenFailure. The one exception in the code is the
+     user's own Reject of the peer's inbound substream: finding class 3. *)
   let leave :=
-    negb (in_progress (o_ps pre)) || in_progress (o_ps post) || is_open (o_ps post) ||
-    has_fail p (o_ev x) ||
-    match o with Validate _ false => true | _ => false end ||
-    (has_validate p (o_ev x) && o_hval pre) in
+    negb (in_progress (o_ps pre)) || in_progress (o_ps post) ||
+    (is_open (o_ps post) && has_opened p (o_ev x)) || has_fail p (o_ev x) in
+  let rej := match o with Validate _ false => true | _ => false end in
   (* 7. a substream id the protocol waits for is still owed by the transport *)
   let owed :=
     match waits_for (o_ps post) with
@@ -314,12 +438,44 @@ Definition check_step (c : cfg) (m : omem) (o : op) (x : sobs) : omem * N :=
         else if existsb (N.eqb y) failed then F_KEPT else F_GEN
     | None => 0
     end in
-  (mkOmem (o_peers x) opened' gated req failed,
-   N.lor (flag (iso && acc && cl && ans && leave) F_GEN) (N.lor fg owed)).
+  (* 8. "can send notifications only between the two": a frame reaches a substream only in a send
+     operation, with that message, on the stream period whose sink the operation uses: through the handle
+     the period of the last Opened that the user has not seen Closed (nothing at all when there is
+     none: the call returns Ok / PeerDoesntExist and nothing else happens), through a kept clone the
+     period it was cloned in *)
+  let wires := flat_map (fun cl => match cl with CWire q k mm => [(q, k, mm)] | _ => [] end) (o_calls x) in
+  let wire_ok (sk : option N) (msg : N) :=
+    forallb (fun w : peer * N * N =>
+               let '(q, k, mm) := w in
+               (q =? p) && (mm =? msg) && match sk with Some k0 => k =? k0 | None => false end) wires in
+  let send :=
+    match o with
+    | SendSync _ msg | SendAsync _ msg => wire_ok (if o_hopen pre then m_sink m p else None) msg
+    | SinkSync _ msg | SinkAsync _ msg => wire_ok (m_usink m p) msg
+    | _ => match wires with [] => true | _ => false end
+    end in
+  let usink' :=
+    match o with
+    | GrabSink _ => match m_usink m p, m_sink m p with None, Some k => upd (m_usink m) p (Some k) | _, _ => m_usink m end
+    | _ => m_usink m
+    end in
+  let '(cnt', sink') := sinks (m_cnt m) (m_sink m) (o_ev x) in
+  (mkOmem (o_peers x) opened' gated req failed cnt' sink' usink',
+   N.lor (flag (iso && acc && cl && ans && send && (leave || rej)) F_GEN)
+         (N.lor (flag (leave || negb rej) F_REJ) (N.lor fg owed))).
 
-Fixpoint check_steps (c : cfg) (m : omem) (ops : list op) (tr : list sobs) : N :=
+(* a SleepAll step is a batch of timer events for several peers: only the event grammar and the
+   bookkeeping of the oracle are applied to it *)
+Definition check_batch (m : omem) (x : sobs) : omem * N :=
+  let '(opened', fg) := grammar (m_opened m) (m_gated m) (o_ev x) in
+  let '(cnt', sink') := sinks (m_cnt m) (m_sink m) (o_ev x) in
+  (mkOmem (o_peers x) opened' (m_gated m) (m_req m) (m_failed m) cnt' sink' (m_usink m), fg).
+
+Fixpoint check_steps (c : cfg) (m : omem) (ops : list gop) (tr : list sobs) : N :=
   match ops, tr with
-  | o :: ops', x :: tr' => let '(m', f) := check_step c m o x in N.lor f (check_steps c m' ops' tr')
+  | g :: ops', x :: tr' =>
+      let '(m', f) := match g with GOp o => check_step c m o x | GSleepAll => check_batch m x end in
+      N.lor f (check_steps c m' ops' tr')
   | _, _ => 0
   end.
 
@@ -337,9 +493,75 @@ Definition verdict (case trace : list N) : N :=
   | _, _ => F_GEN
   end.
 
-Definition prop_ok (case trace : list N) : bool := verdict case trace =? 0.
+(* ---- oracle for lazy-user traces: what the user is handed obeys the same event grammar, the loop is
+   never stuck, the channel never holds more than its capacity ---- *)
+Record lobs := mkLobs { lo_ev : list uev; lo_calls : list call; lo_q : N; lo_parked : bool }.
 
-(* class 1: KNOWN_FINDINGS "slow close"; class 2: "failed substream id kept pending" *)
+Definition p_lobs : parser lobs :=
+  let* ev := plist p_ev in
+  let* calls := plist p_call in
+  let* _ := prep 6 pN in
+  let* q := pN in
+  let* pk := pBool in
+  pret (mkLobs ev calls q pk).
+
+Fixpoint p_lsteps (fuel : nat) : parser (list lobs * bool) :=
+  fun l =>
+    match fuel with
+    | O => None
+    | S f =>
+        match l with
+        | [] => Some (([], false), [])
+        | [2] => Some (([], true), [])
+        | 1 :: rest =>
+            match p_lobs rest with
+            | Some (o, rest') =>
+                match p_lsteps f rest' with
+                | Some ((t, b), r) => Some ((o :: t, b), r)
+                | None => None
+                end
+            | None => None
+            end
+        | _ => None
+        end
+    end.
+
+Fixpoint lcheck (cap : N) (opened gated : peer -> bool) (ops : list lop) (tr : list lobs) : N :=
+  match ops, tr with
+  | g :: ops', x :: tr' =>
+      let gated' :=
+        match g with
+        | LOp (Gate q) | LOp (TaskDie q true) | LOp (NotifyDie q true) => upd gated q true
+        | _ => gated   (* deliveries lag behind: a slow close earlier in the case may show up any time later *)
+        end in
+      let gg := fun q => gated q || gated' q in
+      let '(opened', fg) := grammar opened gg (lo_ev x) in
+      N.lor (N.lor fg (flag (lo_q x <=? cap) F_GEN)) (lcheck cap opened' gated' ops' tr')
+  | _, _ => 0
+  end.
+
+Definition lverdict (case trace : list N) : N :=
+  match decode_lcase case, trace with
+  | Some (c, ops), 1 :: body =>
+      match pall (p_lsteps (S (length ops))) body with
+      | Some (tr, stuck) =>
+          if stuck then F_GEN
+          else if negb (Nat.eqb (length tr) (length ops)) then F_GEN
+          else lcheck (case_cap case) (fun _ => false) (fun _ => false) ops tr
+      | None => F_GEN
+      end
+  | None, [0] => 0
+  | _, _ => F_GEN
+  end.
+
+Definition verdict_any (case trace : list N) : N :=
+  if case_cap case =? 0 then verdict case trace else lverdict case trace.
+
+Definition prop_ok (case trace : list N) : bool := verdict_any case trace =? 0.
+
+(* class 1: KNOWN_FINDINGS "slow close"; class 2: "failed substream id kept pending"; class 3: "the
+   user's Reject drops the user's own open request without an answer" *)
 Definition known_class (case trace : list N) : N :=
-  let v := verdict case trace in
-  if N.testbit v 0 then 0 else if N.testbit v 1 then 1 else if N.testbit v 2 then 2 else 0.
+  let v := verdict_any case trace in
+  if N.testbit v 0 then 0 else if N.testbit v 1 then 1 else if N.testbit v 2 then 2
+  else if N.testbit v 3 then 3 else 0.
